@@ -5,9 +5,10 @@ package babe
 // C25: BABE lottery arithmetic matches the specification.
 //
 // Deciding oracles (all independent of gossamer, see zz_verif_refmath_test.go):
-//   thr-pipeline  |impl - 2^128*(1-(1-c64)^theta64)| <= 2^128*2^-46  with c64 = f64(c1)/f64(c2), theta64 = 1/f64(n)
-//                 and the power taken with 512-bit arithmetic ("as Substrate computes it": every IEEE step of
-//                 Substrate's pipeline is reproduced exactly, only powf is replaced by the exact power)
+//   thr-f64-exact n == 1 (pow(x,1)=x), or 1-c rounding to 0 or 1: impl == floor(2^128 * double(1 - pow)) BIT-EXACT, the
+//                 doubles c64 = f64(c1)/f64(c2), q = 1-c64 computed by the harness (correctly rounded IEEE operations)
+//   thr-pipeline  n > 1: |impl - 2^128*(1-q^theta64)| <= 2^128*(2*(1+theta|ln q|)*2^-52*q^theta + 2^-53), theta64 = 1/f64(n),
+//                 power taken with 512-bit arithmetic (a few ulps of the double power; libm pow may be ~1 ulp off)
 //   thr-exact     |impl - floor(2^128*(1-(1-c)^(1/n)))| <= 2^128*(2^-47 + dq*theta*q_lo^(theta-1)) for the exact
 //                 rational c (first-order bound for the rounding dq of 1-c; skipped and counted when ill-conditioned)
 //   thr-c1        c1 == c2  =>  impl == MaxUint128
@@ -28,7 +29,6 @@ import (
 var (
 	vfTwo128   = new(big.Int).Lsh(big.NewInt(1), 128)
 	vfMaxU128  = new(big.Int).Sub(vfTwo128, big.NewInt(1))
-	vfTolPipe  = vfF().SetMantExp(vfFi(1), 128-46)
 	vfTolFloor = vfF().SetMantExp(vfFi(1), 128-47)
 )
 
@@ -72,18 +72,51 @@ func vfCheckThreshold(c *vcommon.Case, c1, c2 uint64, n int) *big.Int {
 		return impl
 	}
 
-	// thr-pipeline
+	// thr-pipeline: Substrate's value is a deterministic function of IEEE-754 double operations. Where the power is
+	// fixed by IEEE / libm semantics (theta == 1: pow(x,1) == x; base 0 or 1) the result must be BIT-EXACT
+	// floor(2^128 * double(1 - pow)); elsewhere pow may differ from the exact power by the accuracy of a composed
+	// exp(theta*log(q)) (<= (1+theta|ln q|) * 2^-52 relative), doubled for margin, plus the rounding of 1 - y.
 	pipe, q64 := vfThresholdPipeline(c1, c2, n)
 	c.Eval(1)
-	d := vfAbsDiff(impl, pipe)
-	if d.Sign() != 0 && d.MantExp(nil) > 128-51 {
-		c.Count("thr_pipeline_diff_above_2^-51", 1) // observation: more than ~4 ulp of the double intermediate
-	}
-	if d.Cmp(vfTolPipe) > 0 {
-		w["pipeline_value"] = pipe.Text('f', 0)
-		w["abs_diff_log2"] = d.MantExp(nil)
-		c.Violation("thr-pipeline", fmt.Sprintf("CalculateThreshold(%d,%d,%d)=%s differs from 2^128*(1-(1-c)^(1/n)) "+
-			"evaluated on the double inputs (%s) by 2^%d > 2^82", c1, c2, n, impl, pipe.Text('f', 0), d.MantExp(nil)), w)
+	if n == 1 || q64 == 0 || q64 == 1 {
+		p64 := float64(1 - q64) // pow(q,1) = q, pow(0,t) = 0, pow(1,t) = 1
+		want := new(big.Int).Set(vfMaxU128)
+		if p64 < 1 {
+			pr := new(big.Rat).SetFloat64(p64)
+			want = new(big.Int).Div(new(big.Int).Mul(vfTwo128, pr.Num()), pr.Denom())
+		}
+		c.Count("thr_bit_exact_checked", 1)
+		if float64(float64(c1)/float64(c2)) < 0.5 && n == 1 {
+			if cr := new(big.Rat).SetFrac(new(big.Int).SetUint64(c1), new(big.Int).SetUint64(c2)); !cr.Denom().IsInt64() ||
+				cr.Denom().Int64()&(cr.Denom().Int64()-1) != 0 {
+				c.Count("thr_bit_exact_nondyadic_c_below_half_n1", 1) // 1-(1-c) != c in doubles: shortcuts show
+			}
+		}
+		if impl.Cmp(want) != 0 {
+			w["f64_reference"] = want.String()
+			c.Violation("thr-f64-exact", fmt.Sprintf("CalculateThreshold(%d,%d,%d)=%s; the double pipeline 1-(1-c1/c2)^(1/n) is exactly "+
+				"determined here and gives floor(2^128*p)=%s", c1, c2, n, impl, want), w)
+		}
+	} else {
+		y := vfSub(vfFi(1), vfF().SetMantExp(pipe, -128)) // exact q^theta
+		lnq := vfLn(vfFf(q64))
+		lnq.Abs(lnq)
+		rel := vfAdd(vfFi(1), vfQuo(lnq, vfFi(int64(n))))                                  // 1 + theta|ln q|
+		tol := vfAdd(vfF().SetMantExp(vfMul(rel, y), -51), vfF().SetMantExp(vfFi(1), -53)) // 2*rel*y*2^-52 + 2^-53
+		tol.SetMantExp(tol, 128)
+		d := vfAbsDiff(impl, pipe)
+		c.Count("thr_ulp_checked", 1)
+		if vfMul(d, vfFi(4)).Cmp(tol) > 0 {
+			c.Count("thr_ulp_diff_above_quarter_tolerance", 1) // observation: how close a correct pipeline comes
+		}
+		if d.Cmp(tol) > 0 {
+			w["pipeline_value"] = pipe.Text('f', 0)
+			w["abs_diff_log2"] = d.MantExp(nil)
+			w["tol_log2"] = tol.MantExp(nil)
+			c.Violation("thr-pipeline", fmt.Sprintf("CalculateThreshold(%d,%d,%d)=%s differs from 2^128*(1-(1-c)^(1/n)) "+
+				"evaluated on the double inputs (%s) by 2^%d > ulp-level tolerance 2^%d", c1, c2, n, impl, pipe.Text('f', 0),
+				d.MantExp(nil), tol.MantExp(nil)), w)
+		}
 	}
 	switch {
 	case q64 == 1:
@@ -148,6 +181,11 @@ func vfPickN(r *vcommon.Rand) int {
 	switch r.Intn(6) {
 	case 0:
 		return r.Range(1, 5)
+	case 2:
+		if r.Chance(1, 2) {
+			return 1
+		}
+		return r.Range(1, 1024)
 	case 1:
 		return vcommon.Pick(r, []int{1, 2, 3, 4, 7, 8, 16, 100, 297, 511, 512, 1000, 1023, 1024})
 	default:
@@ -208,6 +246,10 @@ func vfFixedThresholds() []vfThr {
 			vfThr{^uint64(0), ^uint64(0), n}, // c = 1 with the largest operands
 			vfThr{1, ^uint64(0), n},
 		)
+	}
+	// non-dyadic ratios below 1/2 with a single authority: 1-(1-c) differs from c in the low mantissa bits
+	for _, x := range [][2]uint64{{1, 3}, {1, 7}, {1, 10}, {3, 10}, {1, 99}, {2, 5}, {1, 1000}, {49, 100}, {1, 6}, {5, 11}} {
+		out = append(out, vfThr{x[0], x[1], 1}, vfThr{x[0], x[1], 2})
 	}
 	return out
 }
@@ -299,6 +341,20 @@ func vfCheckCompare(c *vcommon.Case) {
 	}
 	v := lo // f(v) false, f(v+1) true  =>  candidate value
 	w["v"] = v.String()
+	// the value itself: u128::from_le_bytes(inout.make_bytes(16, "substrate-babe-vrf")); the comparison is strict
+	direct, err := vfLotteryValue(out, pub, rnd, slot, epoch)
+	if err != nil {
+		c.Inconclusive("make_bytes: " + err.Error())
+		return
+	}
+	c.Eval(1)
+	c.Count("cmp_value_vs_make_bytes", 1)
+	if direct.Cmp(v) != 0 {
+		w["make_bytes_le"] = direct.String()
+		c.Violation("cmp-strict", fmt.Sprintf("checkPrimaryThreshold switches to true at T=%s, but the VRF value is %s: want [value < T] "+
+			"(true first at value+1)", new(big.Int).Add(v, big.NewInt(1)), direct), w)
+		return
+	}
 	probes := []*big.Int{new(big.Int).Set(v), new(big.Int).Add(v, big.NewInt(1)), big.NewInt(1), new(big.Int).Sub(vfMaxU128, big.NewInt(1))}
 	if v.Sign() > 0 {
 		probes = append(probes, new(big.Int).Sub(v, big.NewInt(1)))
@@ -390,10 +446,14 @@ func TestVerifC25(t *testing.T) {
 	r.Floor("thr_exact_compared", 800)
 	r.Floor("thr_n_ge_512", 100)
 	r.Floor("thr_n_eq_1", 20)
+	r.Floor("thr_bit_exact_checked", 150)
+	r.Floor("thr_bit_exact_nondyadic_c_below_half_n1", 40)
+	r.Floor("thr_ulp_checked", 1000)
 	r.Floor("thr_1_minus_c_rounds_to_1", 10)
 	r.Floor("mono_pairs", 1500)
 	r.Floor("mono_pairs_near_min_gap", 100)
 	r.Floor("cmp_outputs", 20)
+	r.Floor("cmp_value_vs_make_bytes", 20)
 	r.Floor("sec_calls", 2000)
 	r.Floor("sec_slot_above_2^32", 200)
 
